@@ -131,7 +131,7 @@ def base_matrix(seed, quick):
     for i in range(n):
         s = seed + i
         cs.append(dict(seed=s, slots=[1, 2, 3, 4, 5, 8, 16, 64][i % 8], events=2 + i % 3, prims=1 + i % 4,
-                       emax=[3, 30, 300, 2000][i % 4], dets=i % 6, fluct=i % 2,
+                       emax=[3, 30, 300, 2000][i % 4], dets=i % 9, fluct=i % 2,
                        scale=[1, 5, 20, 50][(i // 2) % 4], order=orders[i % len(orders)] if i % 3 else "none",
                        inflight=[0, 2, 5][i % 3], maxsteps=40000,
                        field=[0, 0, 1, 0, 0.01, 0, 5, 0][(i // 3) % 8],
